@@ -51,6 +51,11 @@ def c03_jobs(tier):
         [(PAYLOAD_KINDS[i], PAYLOAD_KINDS[(i + 1) % len(PAYLOAD_KINDS)]) for i in range(len(PAYLOAD_KINDS))]
     for a, b in pairs:
         jobs.append(job(MSG, "HCodecRoundTrip", [0, a, b, 0]))
+    if tier == "quick":
+        for k in (33, 41, 44, 47, 48):
+            jobs.append(job(MSG, "HCodecRoundTrip", [0, k, k, 0]))  # two payloads of the same kind
+    for tr in ([40, 41, 43], [33, 34, 40], [35, 39, 48]):
+        jobs.append(job(MSG, "HCodecRoundTrip", [-1 if tier == "quick" else 0] + tr + [0]))
     for m in (0, 1, 2, 3, 254):
         jobs.append(job(EAP, "HEapRoundTrip", [m, 0, t - 1]))
     masks = range(128) if tier == "thorough" else [m for m in range(128) if bin(m).count("1") <= 2]
@@ -439,6 +444,11 @@ def c11_jobs(tier):
         for which in range(4):
             for f in range(3):
                 jobs.append(job(SEC, "HProposalRejected", [ike, which, f], bytes_full=True, unwind_assume=UA_RAND))
+    for e in range(3):
+        for i in range(3):
+            for p in range(3):
+                jobs.append(job(SEC, "HProposalRoundTrip", [1, e, i, p, (e + i + p) % 2]))
+                jobs.append(job(SEC, "HProposalRoundTrip", [0, e, i, p, (e + i + p) % 3]))
     return jobs
 
 
